@@ -6,20 +6,23 @@ HARNESSES = {}
 
 
 class Harness:
-    def __init__(self, name, fn, props, functions, configs, expect, cost, assumes, notes, engine):
+    def __init__(self, name, fn, props, functions, configs, expect, cost, assumes, notes, engine, soft=False):
+        self.soft = soft
         self.name, self.fn, self.props, self.functions = name, fn, tuple(props), tuple(functions)
         self.configs, self.expect, self.cost = configs, expect, cost
         self.assumes, self.notes, self.engine = tuple(assumes), notes, engine
 
 
-def harness(name, props, functions=(), configs="all", expect="proved", cost=1, assumes=(), notes="", engine="E1"):
+def harness(name, props, functions=(), configs="all", expect="proved", cost=1, assumes=(), notes="", engine="E1", soft=False):
     """configs: "all" (once per interpreter version 3.7-3.10) | "any" (code has no version dependence: run under one
     configuration) | list of versions.  expect="failed" marks a canary: a known-false obligation that must come back sat.
-    engine: "E1" deductive (unbounded) | "E2" bounded symbolic (bound stated in notes)."""
+    engine: "E1" deductive (unbounded) | "E2" bounded symbolic (bound stated in notes).
+    soft=True: the obligations are a *sufficient* syntactic condition for the property (e.g. "no caching decorator"); when one fails the
+    proof is lost (undecided) but nothing is refuted - the bounded engines decide the run."""
     def deco(fn):
         if name in HARNESSES:
             raise RuntimeError("duplicate harness " + name)
-        HARNESSES[name] = Harness(name, fn, props, functions, configs, expect, cost, assumes, notes, engine)
+        HARNESSES[name] = Harness(name, fn, props, functions, configs, expect, cost, assumes, notes, engine, soft)
         return fn
     return deco
 
